@@ -193,3 +193,96 @@ PROPS["C15"] = dict(
              count=["assert:C15-", "panic:", "deadlock:"], expect_covers=["end"], bounds={"messages": 103}),
     ],
 )
+
+_DISC_RD = "(*sync.Map).Load=verifSMLoad,(*sync.Map).Store=verifSMStore,(*sync.Map).LoadOrStore=verifSMLoadOrStore,(*sync.Map).Range=verifSMRange,crypto/hmac.New=verifHmacNew,time.NewTicker=verifNewTicker,(*time.Ticker).Stop=verifTickerStop"
+_DISC_ARGS = ["-realhex", "-redirect", _DISC_RD, "-preempt", "0"]
+_DISC_ENV = COMMON_ENV + ["sync.Map modelled by a 60-line linearizable association list in harness Go (engine redirects Load/Store/LoadOrStore/Range); natively the real sync.Map is used",
+                          "crypto/hmac modelled as SHA-256(key || 0xFF || data) with SHA-256 an uninterpreted collision-free function (a PRF as far as the code is concerned)",
+                          "fmt.Sprintf(\"%v\", []uint16) modelled as an injective function of the slice", "time.NewTicker redirected to a harness ticker that fires when the harness says so",
+                          "identifier universe {1, 7, 300, 65535} (both byte boundaries of the 16-bit range) in the Synchronize/system harnesses; all 16-bit values in the view lemma"]
+PROPS["C07"] = dict(
+    level="model_checking",
+    explanation="Lemma-wise on the real code: L1 Member.HandleMessage from an arbitrary topic state (what one message may change), L2 intersectedView/myMemberViewSorted for arbitrary announced views, "
+                "L3 the real Synchronize against an arbitrary environment that delivers any structured peer message or a tick between its blocking points, and bounded honest system runs; "
+                "composition (monotone views + listed peers announced exactly this list + completion only at the expected size => identical lists) is argued in DESIGN.md",
+    assumptions=_DISC_ENV + ["transport authenticates `from`; from != self", "context expiry happens at quiescence (when nothing else can run)"],
+    outside=["liveness beyond the bounded honest runs", "universes larger than 4", "more than 3 environment events around one Synchronize call", "TOCTOU interleavings inside intersectedView (they affect liveness only, see DESIGN.md)"],
+    runs=[
+        dict(name="L2 view lemma", dir="disc", files=["disc_c07.go.txt", "disc_model.go.txt"], entry="verifH_C07_view", args=_DISC_ARGS, count=["assert:C07-", "panic:"], expect_covers=["agreed", "no-agreement-yet"],
+             bounds={"self/peers": "all 16-bit ids", "announcements": "0..2 peers", "views": "length 0..3, all 16-bit entries"}),
+        dict(name="L1 HandleMessage lemma", dir="disc", files=["disc_c07.go.txt", "disc_model.go.txt"], entry="verifH_C07_handle", args=_DISC_ARGS, shards=16, shard_depth=6,
+             count=["assert:C07-", "panic:"], expect_covers=["view-stored", "dropped", "query-answered", "response"],
+             bounds={"pre-state": "each of two peers announced before or not (arbitrary view), responded before or not", "message": "any type, tag of any universe member, from any peer or a non-member, view length 0..3"}),
+        dict(name="L3 Synchronize vs arbitrary environment", dir="disc", files=["disc_c07.go.txt", "disc_model.go.txt"], entry="verifH_C07_sync", args=_DISC_ARGS, params={"hEvents": 2}, shards=16, shard_depth=6,
+             count=["assert:C07-", "panic:", "deadlock:"], expect_covers=["completed", "gave-up"],
+             bounds={"expected members": "2 or 3", "environment events": 2, "event": "tick, or any structured message (type, view of length 0..3 over the universe) from any of 3 peers, at any blocking point"},
+             tiers={"thorough": {"params": {"hEvents": 3}, "bounds": {"environment events": 3}}}),
+        dict(name="honest system run, 2 members, every delivery order", dir="disc", files=["disc_c07.go.txt", "disc_model.go.txt"], entry="verifH_C07_sys", args=_DISC_ARGS + ["-det"], params={"hParties": 2},
+             count=["assert:C07-", "panic:", "deadlock:"], expect_covers=["all-completed"], bounds={"members": 2, "delivery": "any in-flight message next; tickers fire whenever nothing is in flight", "rounds": 24}),
+        dict(name="honest system run, 3 members, FIFO delivery", dir="disc", files=["disc_c07.go.txt", "disc_model.go.txt"], entry="verifH_C07_sys", args=_DISC_ARGS + ["-det"], params={"hParties": 3, "hRounds": 60, "hWindow": 1},
+             count=["assert:C07-", "panic:", "deadlock:"], expect_covers=["all-completed"], bounds={"members": 3, "delivery": "FIFO", "rounds": 60}),
+    ],
+)
+PROPS["C10"]["runs"] += [
+    dict(name="disc.Member.HandleMessage", dir="disc", files=["disc_c10.go.txt", "disc_model.go.txt"], entry="verifH_C10_disc_handle", args=_DISC_ARGS, params={"hMsgs": 2, "hLenMode": 0}, shards=16, shard_depth=6,
+         count=["panic:", "deadlock:", "assert:C10-"], expect_covers=["returned"],
+         bounds={"messages in a row": 2, "length": "{0,1,31,32,33,34,35,37,41}", "bytes/source": "all", "state": "synchronising on a topic (peer tags precomputed by the real code) or idle"},
+         tiers={"thorough": {"params": {"hMsgs": 1, "hLenMode": 1}, "bounds": {"messages in a row": 1, "length": "0..41"}}}),
+    dict(name="disc.decodeTagAndMembershipList", dir="disc", files=["disc_c10.go.txt", "disc_model.go.txt"], entry="verifH_C10_decode", args=_DISC_ARGS, count=["panic:"], expect_covers=["decoded", "rejected"],
+         bounds={"length": "0..38", "bytes": "all"}),
+]
+
+_NET_RD = ("github.com/IBM/TSS/net.extractTLSBinding=verifExtractTLSBinding,encoding/pem.Decode=verifPemDecode,crypto/x509.ParseCertificate=verifParseCert,"
+           "crypto/ecdsa.VerifyASN1=verifVerifyASN1,(*crypto/tls.Conn).Write=verifConnWrite,(*crypto/tls.Conn).Close=verifConnClose,crypto/tls.Dial=verifDial,time.Unix=verifTimeUnix,"
+           "wrap:*crypto/tls.Conn=verifWrapConn")
+_NET_ARGS = ["-realhex", "-redirect", _NET_RD, "-preempt", "0"]
+_NET_REPLAY = ["-nativeredirect"]
+_NET_ENV = COMMON_ENV + ["TLS connection modelled as a byte stream with a per-connection exporter constant (inbound: a net.Conn implementation; outbound: (*tls.Conn).Write/Close redirected to the same model)",
+                         "pem.Decode, x509.ParseCertificate, ecdsa.VerifyASN1 are uninterpreted recording stubs (parse may fail; key type ECDSA or RSA; verification verdict arbitrary); pem.Decode skips a preamble only if it ends in a newline",
+                         "encoding/asn1 as an opaque structure-preserving codec (an arbitrary well-formed Handshake value; truncation at structural cut points)",
+                         "SHA-256 uninterpreted, collision free; hex.EncodeToString executed from its SSA",
+                         "native replays run the real net.go with the same stubs substituted by a generated, type-directed call rewrite of the current source (go test -overlay)"]
+PROPS["C16"] = dict(
+    level="model_checking",
+    explanation="S1 on the real handleConn/authenticateConnection/Handshake.Read/readMsg: every handshake field and its length symbolic, two registered (domain, identity) pairs, "
+                "truncation and chunked reads; assertions on what must hold whenever a message is attributed",
+    assumptions=_NET_ENV,
+    outside=["TLS, X.509 and ECDSA themselves (assumed correct)", "timestamp freshness (only logged by the code)", "fields longer than 2-3 bytes"],
+    runs=[
+        dict(dir="net", files=["net_c16.go.txt", "net_model.go.txt"], entry="verifH_C16_conn", args=_NET_ARGS, replay_args=_NET_REPLAY, params={"hDomMax": 2, "hIdMax": 3}, shards=16, shard_depth=5,
+             count=["assert:C16-", "panic:", "deadlock:"], expect_covers=["attributed", "no-attributed-message"],
+             bounds={"registered pairs": 2, "domain": "1..2 bytes", "identity": "2..3 bytes", "binding/signature": "2 bytes", "reads": "whole or byte-wise", "truncation": "5 structural cut points"}),
+    ],
+)
+PROPS["C16"]["runs"][0]["params"] = {"hDomMax": 2, "hIdMax": 3, "hChunk": 0}
+PROPS["C16"]["runs"][0]["tiers"] = {"thorough": {"params": {"hDomMax": 2, "hIdMax": 3, "hChunk": 1}}}
+PROPS["C16"]["runs"][0]["bounds"]["reads"] = "whole (quick) / whole or byte-wise (thorough)"
+
+_NET_RD17 = _NET_RD + ",time.NewTimer=verifNewTimer,(*time.Timer).Stop=verifTimerStop"
+_NET_ARGS17 = ["-realhex", "-redirect", _NET_RD17, "-preempt", "0"]
+PROPS["C17"] = dict(
+    level="model_checking",
+    explanation="S1: real remoteParty.send -> byte-stream model -> real readMsg round trip with symbolic type/topic/payload/length/chunking, length-limit refusal; "
+                "S2: real SocketRemoteParties.Send from two goroutines, real sendMessages/maybeConnect writer goroutines, a peer that is unreachable or whose connection breaks at a symbolic write, "
+                "queue-full timeout; all choices of the next goroutine at blocking points",
+    assumptions=_NET_ENV + ["time.NewTimer redirected to a harness timer fired at quiescence; time.Sleep wakes when nothing else can run",
+                            "queue capacities reduced (4 and 1) by constructing remoteParty directly"],
+    outside=["real sockets and TLS", "payloads larger than 3 (8 thorough) bytes: only the length arithmetic of the 20 MB limit is checked, on the refusal side; accepting frames between 64 bytes and the limit is not encoded (the engine does not allocate such buffers)",
+             "preemptive interleavings inside send (single writer goroutine per destination by construction)"],
+    runs=[
+        dict(dir="net", files=["net_c17.go.txt", "net_model.go.txt"], entry="verifH_C17_frame", args=_NET_ARGS17, replay_args=_NET_REPLAY, params={"hMaxData": 3},
+             count=["assert:C17-", "panic:", "deadlock:"], expect_covers=["end"], bounds={"payload": "0..3 bytes", "type": "all 256", "topic": "absent or 32 symbolic bytes (legal combinations)", "reads": "whole / 1 / 2 bytes at a time"},
+             tiers={"thorough": {"params": {"hMaxData": 8}, "bounds": {"payload": "0..8 bytes"}}}),
+        dict(dir="net", files=["net_c17.go.txt", "net_model.go.txt"], entry="verifH_C17_limit", args=_NET_ARGS17, replay_args=_NET_REPLAY,
+             count=["assert:C17-", "panic:", "deadlock:"], expect_covers=["accepted", "refused"], bounds={"length field": "all values > 20 MB (refused) and 0..2 (accepted)", "type": "all"}),
+        dict(dir="net", files=["net_c17.go.txt", "net_model.go.txt"], entry="verifH_C17_conc", args=_NET_ARGS17, replay_args=_NET_REPLAY, shards=4, shard_depth=3,
+             count=["assert:C17-", "panic:", "deadlock:"], expect_covers=["end"], bounds={"senders": "2 goroutines, 3 messages, 2 destinations", "peer 2": "unreachable, or its k-th write fails (k symbolic)", "schedules": "all choices at blocking points"}),
+        dict(dir="net", files=["net_c17.go.txt", "net_model.go.txt"], entry="verifH_C17_stalled", args=_NET_ARGS17, replay_args=_NET_REPLAY,
+             count=["assert:C17-", "panic:", "deadlock:"], expect_covers=["returned", "enqueue-timed-out"], bounds={"scenario": "peer never reachable, queue capacity 1, second Send waits until the enqueue timer fires"}),
+    ],
+)
+PROPS["C10"]["runs"] += [
+    dict(name="net.handleConn with arbitrary bytes", dir="net", files=["net_c16.go.txt", "net_model.go.txt"], entry="verifH_C10_net_conn", args=_NET_ARGS + ["-asn1havoc"], replay_args=_NET_REPLAY,
+         count=["panic:", "deadlock:", "assert:C10-"], expect_covers=["returned"], no_native_replay=False,
+         shards=16, shard_depth=4, bounds={"stream": "announced handshake length 0..8, arbitrary body, one frame header announcing 0..4 bytes with arbitrary type, 36 arbitrary bytes, cut at any position", "asn1": "malformed, or an arbitrary Handshake value"}),
+]
